@@ -1,1 +1,51 @@
-fn main(){}
+//! Line-oriented oracle for the Python check: the library linked directly.
+//! Request (one line):  ["<rule text>", "<data text>"]
+//! Reply   (one line):  {"ok": "<result text>", "lines": [...]} | {"err": "..."} | {"parse_err": "..."} | {"panic": "..."}
+//! `log` output of the evaluated rule is captured (fd 1 is redirected), replies go to the original stdout.
+
+use jlverif::{capture, imp};
+use serde_json::{json, Value};
+use std::io::{BufRead, Write};
+use std::os::unix::io::FromRawFd;
+
+fn main() {
+    // keep the real stdout for replies, then capture fd 1
+    let reply_fd = unsafe { libc::dup(1) };
+    let mut reply = unsafe { std::fs::File::from_raw_fd(reply_fd) };
+    capture::install(false);
+    imp::install_panic_hook();
+    let stdin = std::io::stdin();
+    for line in stdin.lock().lines() {
+        let line = match line {
+            Ok(l) => l,
+            Err(_) => break,
+        };
+        if line.trim().is_empty() {
+            continue;
+        }
+        let req: Value = match serde_json::from_str(&line) {
+            Ok(v) => v,
+            Err(e) => {
+                let _ = writeln!(reply, "{}", json!({"protocol_error": e.to_string()}));
+                let _ = reply.flush();
+                continue;
+            }
+        };
+        let rule_text = req[0].as_str().unwrap_or("");
+        let data_text = req[1].as_str().unwrap_or("");
+        let out = match (serde_json::from_str::<Value>(rule_text), serde_json::from_str::<Value>(data_text)) {
+            (Ok(r), Ok(d)) => {
+                let t = imp::apply_traced(&r, &d);
+                match t.out {
+                    imp::Out::Ok(v) => json!({"ok": v.to_string(), "lines": t.lines}),
+                    imp::Out::Err(e) => json!({"err": e}),
+                    imp::Out::Panic(m) => json!({"panic": m}),
+                }
+            }
+            (Err(e), _) => json!({"parse_err": format!("rule: {}", e)}),
+            (_, Err(e)) => json!({"parse_err": format!("data: {}", e)}),
+        };
+        let _ = writeln!(reply, "{}", out);
+        let _ = reply.flush();
+    }
+}
